@@ -22,10 +22,15 @@ def tifa_analysis(code=None, report=MAIN_REPORT):
     """
     if code is None:
         code = report.submission.main_code
-    if code in report[TIFA_TOOL_NAME]['analyses']:
-        return report[TIFA_TOOL_NAME]['analyses'][code]
+    # The same text under another line offset (an identical chunk in a later
+    # section) is a different analysis: its issues are on other lines
+    submission = report.submission
+    line_offset = submission.line_offsets.get(submission.main_file, 0) if submission else 0
+    key = (code, line_offset) if line_offset else code
+    if key in report[TIFA_TOOL_NAME]['analyses']:
+        return report[TIFA_TOOL_NAME]['analyses'][key]
     result = report[TIFA_TOOL_NAME]['instance'].process_code(code)
-    report[TIFA_TOOL_NAME]['analyses'][code] = result
+    report[TIFA_TOOL_NAME]['analyses'][key] = result
     report[TIFA_TOOL_NAME]['latest'] = result
     return result
 
